@@ -41,7 +41,7 @@ func runC02(c *eng.Ctx) {
 		getCached := p.Method(pkgKem, "resourceInformer", "getCachedObjects")
 		rangeValue := p.Method(pkgKem, "varyingInformers", "RangeValue")
 		res := resultVarOf(f)
-		appendsCache := func(gr *eng.Graph, elem types.Object) func(*eng.GNode) bool {
+		appendsCache := func(gr *eng.Graph, isElem func(ast.Expr) bool) func(*eng.GNode) bool {
 			return func(n *eng.GNode) bool {
 				as, ok := n.Node.(*ast.AssignStmt)
 				if !ok || len(as.Lhs) != 1 || eng.SelObj(info, as.Lhs[0]) != res {
@@ -56,26 +56,20 @@ func runC02(c *eng.Ctx) {
 					return false
 				}
 				s, isS := ast.Unparen(cl.Fun).(*ast.SelectorExpr)
-				return isS && eng.SelObj(info, s.X) == elem
+				return isS && isElem(s.X)
 			}
 		}
 		static := false
-		eng.InspectNoLit(f.Decl.Body, func(n ast.Node) bool {
-			if rs, ok := n.(*ast.RangeStmt); ok && eng.IsField(info, rs.X, resInf) && rs.Value != nil {
-				static = loopNoEarlyExit(g, rs) && loopBodyMustPass(g, rs, appendsCache(g, eng.SelObj(info, rs.Value)))
-			}
-			return true
-		})
+		for _, el := range elemLoopsOver(info, f.Decl.Body, func(x ast.Expr) bool { return eng.IsField(info, x, resInf) }) {
+			static = loopNoEarlyExit(g, el.Stmt) && loopBodyMustPass(g, el.Stmt, appendsCache(g, el.IsElem))
+		}
 		r1.Check(static, f.Key+" static-informers", f.Decl.Pos(), "every static informer's cache is appended", "the caches of the static informers are not all part of the snapshot")
 		varying := false
 		for _, l := range litsPassedTo(f, info, rangeValue) {
 			lg := p.GraphOfLit(l)
-			eng.InspectNoLit(l.Lit.Body, func(n ast.Node) bool {
-				if rs, ok := n.(*ast.RangeStmt); ok && rs.Value != nil {
-					varying = loopNoEarlyExit(lg, rs) && loopBodyMustPass(lg, rs, appendsCache(lg, eng.SelObj(info, rs.Value)))
-				}
-				return true
-			})
+			for _, el := range elemLoopsOver(info, l.Lit.Body, func(ast.Expr) bool { return true }) {
+				varying = loopNoEarlyExit(lg, el.Stmt) && loopBodyMustPass(lg, el.Stmt, appendsCache(lg, el.IsElem))
+			}
 			if n := g.NodeOf(l.ArgOf); n != nil && varying {
 				varying = g.MustPassToExit(eng.Query{FromEntry: true}, func(m *eng.GNode) bool { return m == n }) == nil
 			}
@@ -283,13 +277,16 @@ func runC02R2(c *eng.Ctx, r *eng.RuleCtx) {
 			ix, isIx := ast.Unparen(as.Lhs[0]).(*ast.IndexExpr)
 			return isIx && eng.IsField(info, ix.X, cached) && keyVar != nil && eng.SelObj(info, ix.Index) == keyVar && resVar != nil && eng.SelObj(info, as.Rhs[0]) == resVar
 		}
-		isDelete := func(n *eng.GNode) bool {
-			es, ok := n.Node.(*ast.ExprStmt)
-			if !ok {
-				return false
-			}
-			d := builtinCall(info, es.X, "delete")
-			return d != nil && eng.IsField(info, d.Args[0], cached) && keyVar != nil && eng.SelObj(info, d.Args[1]) == keyVar
+		isDelete := func(*eng.GNode) bool { return false }
+		if keyVar != nil {
+			isDelete = newMustEffect(p, f, true, func(info *types.Info, n ast.Node, key types.Object) bool {
+				es, ok := n.(*ast.ExprStmt)
+				if !ok {
+					return false
+				}
+				d := builtinCall(info, es.X, "delete")
+				return d != nil && eng.IsField(info, d.Args[0], cached) && key != nil && eng.SelObj(info, d.Args[1]) == key
+			}).Node(f, keyVar)
 		}
 		caseEdge := func(objs ...types.Object) (out []*eng.GEdge) {
 			for _, n := range g.Nodes {
